@@ -138,7 +138,7 @@ func init() {
 				progs, subsets = 2500, 96
 			}
 			for i := 0; i < progs; i++ {
-				p, steers := gen.FlowProgram(w.Rng, false)
+				p, steers := gen.FlowProgram(w.Rng, i%3 == 0)
 				text := p.Render()
 				for j := 0; j < subsets; j++ {
 					prob := []float64{0.5, 0.8, 0.3, 1.0}[j%4]
